@@ -14,7 +14,8 @@ RULE = ('PROD ("programs" = route tables): for the type under test every subset 
         '{no verifier; verifier with no entry / rejected / accepted simple / accepted bearer}; reference router = dict lookups; second '
         'pass: table x request product end-to-end through two real endpoints with a concurrent in-flight request on another stream; '
         'non-trivial = request that must not reach a named route handler (unknown route, missing/rejected authentication, other type '
-        'registered); programs = route tables')
+        'registered); programs = route tables; SESSIONS: every ordered pair of requests (5 types x routes {a,b} x 6 credential kinds) through one '
+        'handler instance, with a verifier whose answer depends on the route and on time (revocation between the two requests)')
 EXPLANATION = 'exhaustive product of small route-table and request alphabets driven through the real router/handler coroutines on the virtual loop'
 ASSUMPTIONS = ['a request without a routing entry or with an empty tag list may either fail or reach the unknown-route handler of its type; it must never reach a named route']
 BUDGET_S = {'quick': 240, 'thorough': 1800}
@@ -376,11 +377,113 @@ class WirePatch:
         return r
 
 
+# ---- sessions: several requests through ONE handler instance (one connection) ---------------------------------------------
+SESSION_AUTHS = ('missing', 'bad', 'a-only-simple', 'a-only-bearer', 'all-simple', 'revocable')
+
+
+def session_case(first, second, part):
+    """Two requests on the same RoutingRequestHandler; the verifier's policy depends on the route ('a-only' credentials are
+    accepted for route a only) and on time ('revocable' is accepted until revoked, which happens between the two requests).
+    Every request is judged on its own by the stateless reference: a handler runs iff the verifier accepts (route, credentials)."""
+    from rsocket.routing.request_router import RequestRouter
+    from rsocket.routing.routing_request_handler import RoutingRequestHandler
+    from rsocket.extensions.authentication import AuthenticationSimple, AuthenticationBearer
+    from rsocket.extensions.helpers import composite, route as mk_route, authenticate_simple, authenticate_bearer
+    from rsocket.payload import Payload
+    from rsocket.helpers import create_future
+    ran = []
+    asked = []
+    revoked = [False]
+    router = RequestRouter()
+
+    def mk(t, name):
+        async def h(payload):
+            ran.append((t, name))
+            if t == 'response':
+                return create_future(Payload(b'resp:' + name.encode()))
+            if t == 'stream':
+                return ('PUB', name)
+            if t == 'channel':
+                return (('PUB', name), ('SUB', name))
+        return h
+
+    for t in TYPES:
+        for name in ('a', 'b'):
+            getattr(router, t)(name)(mk(t, name))
+
+    def ident(authentication):
+        if isinstance(authentication, AuthenticationSimple):
+            return bytes(authentication.username)
+        if isinstance(authentication, AuthenticationBearer):
+            return bytes(authentication.token)
+        return None
+
+    def allowed(route, who):
+        if who == b'all':
+            return True
+        if who == b'a-only':
+            return route == 'a'
+        if who == b'revocable':
+            return not revoked[0]
+        return False
+
+    async def verifier(route, authentication):
+        asked.append((route, ident(authentication)))
+        if not allowed(route, ident(authentication)):
+            raise Exception('Authentication rejected')
+
+    handler = RoutingRequestHandler(router, verifier)
+    entry = {'missing': None, 'bad': authenticate_simple('nobody', 'x'), 'a-only-simple': authenticate_simple('a-only', 'pw'),
+             'a-only-bearer': authenticate_bearer('a-only'), 'all-simple': authenticate_simple('all', 'pw'), 'revocable': authenticate_bearer('revocable')}
+    who_of = {'missing': None, 'bad': b'nobody', 'a-only-simple': b'a-only', 'a-only-bearer': b'a-only', 'all-simple': b'all', 'revocable': b'revocable'}
+    loop = VLoop()
+    loop.install()
+    try:
+        for idx, (rtype, rt, auth) in enumerate((first, second)):
+            if idx == 1:
+                revoked[0] = True
+            items = [mk_route(rt)] + ([entry[auth]] if entry[auth] is not None else [])
+            payload = Payload(b'body', bytes(composite(*items)))
+            meth = {'response': handler.request_response, 'stream': handler.request_stream, 'channel': handler.request_channel,
+                    'fire_and_forget': handler.request_fire_and_forget, 'metadata_push': handler.on_metadata_push}[rtype]
+            before = len(ran)
+
+            async def go():
+                try:
+                    await meth(payload)
+                except BaseException:
+                    pass
+
+            loop.create_task(go())
+            loop.quiesce()
+            got = ran[before:]
+            may = who_of[auth] is not None and allowed(rt, who_of[auth])
+            want = [(rtype, rt)] if may else []
+            part.evaluations += 1
+            part.transitions += 1
+            wit = {'kind': 'session', 'first': list(first), 'second': list(second)}
+            if got != want:
+                if not may:
+                    part.violate('C19.auth-gate', 'C19.auth-gate | session | request-%d | %s | after-%s' % (idx + 1, rtype, 'accepted' if (idx == 1 and ran[:before]) else 'nothing'),
+                                 'request %d %s/%s with credentials %s: handlers run %s although the verifier rejects it (verifier was asked %s); first request %s' % (
+                                     idx + 1, rtype, rt, auth, got, asked, first), wit)
+                else:
+                    part.violate('C19.exact-dispatch', 'C19.exact-dispatch | session | request-%d | %s' % (idx + 1, rtype),
+                                 'request %d %s/%s with credentials %s: handlers run %s, expected %s; first request %s' % (idx + 1, rtype, rt, auth, got, want, first), wit)
+        part.traces += 1
+        part.state(('session', first, second, tuple(ran)))
+        if first[2] not in ('missing', 'bad') and second[2] in ('a-only-simple', 'a-only-bearer', 'revocable'):
+            part.nontriv(('session', first, second))
+    finally:
+        loop.teardown()
+
+
 def make_units(tier):
     units = []
     for t in TYPES:
         for sig in SIGS:
             units.append({'kind': 'direct', 'type': t, 'sig': sig})
+        units.append({'kind': 'session', 'type': t})
         units.append({'kind': 'wire', 'type': t, 'flavour': 'tcp'})
         if tier == 'thorough':
             units.append({'kind': 'wire', 'type': t, 'flavour': 'msg'})
@@ -389,6 +492,15 @@ def make_units(tier):
 
 def run_unit(unit, part):
     t = unit['type']
+    if unit['kind'] == 'session':
+        reqs = [(rt, r, a) for rt in TYPES for r in ('a', 'b') for a in SESSION_AUTHS]
+        for first in reqs:
+            if first[0] != t:
+                continue
+            for second in reqs:
+                session_case(first, second, part)
+        part.sample({'kind': 'session', 'first_type': t, 'pairs': len(reqs) * len(reqs) // len(TYPES)}, limit=1)
+        return
     if unit['kind'] == 'direct':
         for table in tables_for(t):
             if unit['sig'] != 'both' and 'a' not in table['named']:
@@ -412,6 +524,11 @@ def replay(rec):
     from mc.runner import Partial
     w = rec['witness']
     p = Partial()
+    if w['kind'] == 'session':
+        session_case(tuple(w['first']), tuple(w['second']), p)
+        for v in p.violations.values():
+            print(v.rule, '|', v.detail[:400])
+        return bool(p.violations)
     table = dict(w['table'], named=frozenset(w['table']['named']))
     if w['kind'] == 'direct':
         direct_case(table, w['sig'], w['rtype'], w['route'], w['position'], w['auth'], p)
